@@ -234,7 +234,8 @@ struct Job {
     reply: std::sync::mpsc::Sender<RunReply>,
 }
 
-static RUN_THREAD: std::sync::Mutex<Option<std::sync::mpsc::Sender<Job>>> = std::sync::Mutex::new(None);
+/// The run thread and the size of its stack in KiB.
+static RUN_THREAD: std::sync::Mutex<Option<(usize, std::sync::mpsc::Sender<Job>)>> = std::sync::Mutex::new(None);
 /// CPU-time clock of the run thread (0 = not known yet).
 static RUN_THREAD_CPU_CLOCK: std::sync::atomic::AtomicI64 = std::sync::atomic::AtomicI64::new(0);
 
@@ -311,10 +312,10 @@ fn wait_for_reply(rx: &std::sync::mpsc::Receiver<RunReply>, watchdog_s: u64) -> 
     }
 }
 
-fn spawn_run_thread() -> std::sync::mpsc::Sender<Job> {
+fn spawn_run_thread(stack_kib: usize) -> std::sync::mpsc::Sender<Job> {
     let (tx, rx) = std::sync::mpsc::channel::<Job>();
     std::thread::Builder::new()
-        .stack_size(2 * 1024 * 1024)
+        .stack_size(stack_kib * 1024)
         .name("simrun".into())
         .spawn(move || {
             // the watchdog reads this thread's CPU clock
@@ -349,9 +350,19 @@ fn spawn_run_thread() -> std::sync::mpsc::Sender<Job> {
 pub fn run_isolated(prop: &'static dyn Property, plan: &Value, exec: &Exec, want_log: bool) -> RunResult {
     let (reply, rx) = std::sync::mpsc::channel();
     {
+        // the stack the code under test runs on is a knob of the plan (tokio's
+        // worker default, 2 MiB, unless the plan says otherwise)
+        let stack_kib = plan
+            .pointer("/knobs/params/stack_kib")
+            .and_then(Value::as_u64)
+            .map_or(2048, |k| k.clamp(64, 65536) as usize);
         let mut slot = RUN_THREAD.lock().unwrap();
+        if slot.as_ref().is_some_and(|(k, _)| *k != stack_kib) {
+            // dropping the sender ends the old thread
+            *slot = None;
+        }
         if slot.is_none() {
-            *slot = Some(spawn_run_thread());
+            *slot = Some((stack_kib, spawn_run_thread(stack_kib)));
         }
         let job = Job {
             prop,
@@ -360,7 +371,7 @@ pub fn run_isolated(prop: &'static dyn Property, plan: &Value, exec: &Exec, want
             want_log,
             reply,
         };
-        slot.as_ref().unwrap().send(job).expect("run thread gone");
+        slot.as_ref().unwrap().1.send(job).expect("run thread gone");
     }
     let panics_before = PANICS.load(std::sync::atomic::Ordering::SeqCst);
     let waited = wait_for_reply(&rx, prop.watchdog_s());
